@@ -10,7 +10,7 @@
 (* Every state is emitted for replay: the real emitter, JSON text, real    *)
 (* loader and a fresh heap must give the model's values.                   *)
 (***************************************************************************)
-EXTENDS BlotsEval, TLC, Json
+EXTENDS BlotsEval, TLC, Json, SequencesExt
 
 N(v) == ENum(v)
 X == EId("x")  Y == EId("y")  G == EId("g")
@@ -21,12 +21,15 @@ RECURSIVE ValToExpr(_)
 RECURSIVE Subst(_, _, _)
 RECURSIVE SubstSeq(_, _, _)
 RECURSIVE SubstDo(_, _, _, _, _)
+RECURSIVE SubstRec(_, _, _)
 ValToExpr(v) ==
   CASE v.t = "num"  -> IF v.n < 0 THEN EBin("sub", N(0), N(-v.n)) ELSE N(v.n)
     [] v.t = "list" -> EList([i \in 1..Len(v.xs) |-> ValToExpr(v.xs[i])])
     [] v.t = "bool" -> EBin("eq", N(0), IF v.b THEN N(0) ELSE N(1))
     [] v.t = "fn"   -> ELam(v.ps, Subst(v.b, v.scope, ParamNames(v.ps)))
     [] v.t = "bi"   -> EId(v.name)
+    [] v.t \in {"str", "null"} -> ELit(v)
+    [] v.t = "rec"  -> ERec([i \in 1..Len(v.ks) |-> RStatic(v.ks[i], ValToExpr(v.vs[i]))])
 SubstSeq(es, sc, bound) == [i \in 1..Len(es) |-> Subst(es[i], sc, bound)]
 \* statements of a do-block bind their names for what follows
 SubstDo(ss, r, sc, bound, acc) ==
@@ -45,12 +48,26 @@ Subst(e, sc, bound) ==
     [] e.k = "asg"  -> EAsg(e.n, Subst(e.e, sc, bound))
     [] e.k = "if"   -> EIf(Subst(e.c, sc, bound), Subst(e.t, sc, bound), Subst(e.e, sc, bound))
     [] e.k = "idx"  -> EIdx(Subst(e.e, sc, bound), Subst(e.i, sc, bound))
+    [] e.k = "lit"  -> e
+    [] e.k = "un"   -> EUn(e.o, Subst(e.e, sc, bound))
+    [] e.k = "dot"  -> EDot(Subst(e.e, sc, bound), e.f)
+    [] e.k = "spread" -> ESpread(Subst(e.e, sc, bound))
+    [] e.k = "rec"  -> ERec(SubstRec(e.es, sc, bound))
+\* a shorthand entry `n` whose name is captured becomes `n: <value>`
+SubstRec(es, sc, bound) ==
+  [i \in 1..Len(es) |->
+     LET x == es[i] IN
+     CASE x.m = "static" -> RStatic(x.key, Subst(x.e, sc, bound))
+       [] x.m = "short"  -> IF x.n \in Names /\ x.n \notin bound /\ sc[x.n] # UNB THEN RStatic(NameCs(x.n), ValToExpr(sc[x.n])) ELSE x
+       [] x.m = "spread" -> RSpreadE(Subst(x.e, sc, bound))
+       [] x.m = "dyn"    -> RDyn(Subst(x.ke, sc, bound), Subst(x.e, sc, bound))]
 
 EmitFn(f) == ELam(f.ps, Subst(f.b, f.scope, ParamNames(f.ps)))
 Reload(e) == Closure(e.ps, e.b, EmptyFrame, "")
 
 \* ------------------------------------------------------------------ function definitions (setup; the function is f)
 Lam1(b) == ELam(<<Req("x")>>, b)
+QStrSeq == SetToSeq(UNION {[1..n -> {3, 4, 10, 12}] : n \in 0..3})
 Defs == <<
   [name |-> "captures-number",   setup |-> <<EAsg("g", N(10)), EAsg("f", Lam1(Plus(X, G)))>>],
   [name |-> "captures-negative", setup |-> <<EAsg("g", EBin("sub", N(0), N(5))), EAsg("f", Lam1(EBin("mul", G, X)))>>],
@@ -66,8 +83,17 @@ Defs == <<
   [name |-> "recursive",         setup |-> <<EAsg("f", Lam1(EIf(EBin("eq", X, N(0)), N(0), Plus(N(1), ECall(EId("f"), <<EBin("sub", X, N(1))>>)))))>>],
   [name |-> "optional-rest",     setup |-> <<EAsg("g", N(10)), EAsg("f", ELam(<<Req("x"), Prm("y", "opt"), Prm("z", "rest")>>, EList(<<X, Y, EId("z"), G>>)))>>],
   [name |-> "conditional",       setup |-> <<EAsg("g", N(1)), EAsg("f", Lam1(EIf(EBin("lt", X, G), Plus(G, G), EBin("sub", X, G))))>>],
-  [name |-> "late-bound",        setup |-> <<EAsg("f", Lam1(Plus(X, G)))>>]
->>
+  [name |-> "late-bound",        setup |-> <<EAsg("f", Lam1(Plus(X, G)))>>],
+  \* data in the captured scope
+  [name |-> "captures-record",   setup |-> <<EAsg("g", ERec(<<RStatic(<<12>>, N(10)), RStatic(<<12, 2, 13>>, EList(<<N(1)>>)), RStatic(<<>>, ELit(Null))>>)), EAsg("f", Lam1(Plus(X, EDot(G, <<12>>))))>>],
+  [name |-> "captures-shorthand", setup |-> <<EAsg("a", N(10)), EAsg("f", Lam1(ERec(<<RShort("a"), RStatic(<<13>>, X)>>)))>>],
+  [name |-> "shorthand-of-param", setup |-> <<EAsg("a", N(10)), EAsg("f", ELam(<<Req("a")>>, ERec(<<RShort("a")>>)))>>],
+  [name |-> "captures-null-bool", setup |-> <<EAsg("g", ELit(Null)), EAsg("h", ELit(Bool(FALSE))), EAsg("f", Lam1(EList(<<EBin("coalesce", G, X), EUn("not", EId("h"))>>)))>>],
+  [name |-> "captured-spread",   setup |-> <<EAsg("g", EList(<<N(1), N(2)>>)), EAsg("h", ERec(<<RStatic(<<12>>, N(1))>>)), EAsg("f", Lam1(EList(<<EList(<<ESpread(G), X>>), ERec(<<RSpreadE(EId("h")), RStatic(<<13>>, X)>>)>>)))>>],
+  [name |-> "captured-key",      setup |-> <<EAsg("g", ELit(Str(<<12, 2, 13>>))), EAsg("f", Lam1(ERec(<<RDyn(G, X)>>)))>>]
+>> \o
+\* every string up to length 3 over { double quote, single quote, backslash, a } as a captured value
+[i \in 1..Len(QStrSeq) |-> [name |-> "captures-string", setup |-> <<EAsg("g", ELit(Str(QStrSeq[i]))), EAsg("f", Lam1(EList(<<X, G, EBin("add", G, ELit(Str(<<12>>)))>>)))>>]]
 ArgTuples == {<<N(0)>>, <<N(1)>>, <<N(2)>>, <<N(1), N(2)>>, <<N(1), N(2), N(3), N(4)>>, <<>>}
 
 VARIABLE c
@@ -84,6 +110,7 @@ ArgVals == [i \in 1..Len(c.args) |-> Fin(c.args[i].v)]
 Fresh == <<EmptyFrame>>
 RECURSIVE ProjV(_)
 ProjV(v) == IF v.t = "fn" THEN [t |-> "fn"] ELSE IF v.t = "list" THEN List([i \in 1..Len(v.xs) |-> ProjV(v.xs[i])])
+            ELSE IF v.t = "rec" THEN Rec(v.ks, [i \in 1..Len(v.vs) |-> ProjV(v.vs[i])])
             ELSE IF v.t = "err" THEN [t |-> "err"] ELSE v
 \* results are compared after projection; a curried result is applied once more so that functions are compared by behaviour
 Apply2(f, env) == LET r == ApplyFn(f, ArgVals, env, 0) IN IF IsFn(r) THEN ApplyFn(r, <<Fin(5)>>, env, 0) ELSE r
